@@ -431,6 +431,9 @@ func c11Worker(tier Tier) int {
 		e, env := ws[wk], envs[wk]
 		b := sweep[bi]
 		if b.Act.Kind != world.ActCall {
+			// a delivery class: the message is executed as it is (its content is what the sender side
+			// emitted; it is not hand-made)
+			checkTotal(e, env, b.W, b.Act, "catalogue:"+b.Name)
 			return
 		}
 		for extra := 0; extra <= 40; extra++ {
